@@ -131,8 +131,7 @@ type inst struct {
 	h               any
 }
 
-func newInst(m metric.Meter, id, kind, k int) (*inst, error) {
-	name := fmt.Sprintf("i%d", id)
+func newInst(m metric.Meter, id, kind, k int, name string, icb metric.Int64Callback, fcb metric.Float64Callback) (*inst, error) {
 	var h any
 	var err error
 	switch kind {
@@ -153,17 +152,41 @@ func newInst(m metric.Meter, id, kind, k int) (*inst, error) {
 	case 7:
 		h, err = m.Float64Gauge(name)
 	case 8:
-		h, err = m.Int64ObservableCounter(name)
+		if icb != nil {
+			h, err = m.Int64ObservableCounter(name, metric.WithInt64Callback(icb))
+		} else {
+			h, err = m.Int64ObservableCounter(name)
+		}
 	case 9:
-		h, err = m.Int64ObservableUpDownCounter(name)
+		if icb != nil {
+			h, err = m.Int64ObservableUpDownCounter(name, metric.WithInt64Callback(icb))
+		} else {
+			h, err = m.Int64ObservableUpDownCounter(name)
+		}
 	case 10:
-		h, err = m.Int64ObservableGauge(name)
+		if icb != nil {
+			h, err = m.Int64ObservableGauge(name, metric.WithInt64Callback(icb))
+		} else {
+			h, err = m.Int64ObservableGauge(name)
+		}
 	case 11:
-		h, err = m.Float64ObservableCounter(name)
+		if fcb != nil {
+			h, err = m.Float64ObservableCounter(name, metric.WithFloat64Callback(fcb))
+		} else {
+			h, err = m.Float64ObservableCounter(name)
+		}
 	case 12:
-		h, err = m.Float64ObservableUpDownCounter(name)
+		if fcb != nil {
+			h, err = m.Float64ObservableUpDownCounter(name, metric.WithFloat64Callback(fcb))
+		} else {
+			h, err = m.Float64ObservableUpDownCounter(name)
+		}
 	case 13:
-		h, err = m.Float64ObservableGauge(name)
+		if fcb != nil {
+			h, err = m.Float64ObservableGauge(name, metric.WithFloat64Callback(fcb))
+		} else {
+			h, err = m.Float64ObservableGauge(name)
+		}
 	default:
 		err = fmt.Errorf("bad kind %d", kind)
 	}
@@ -212,6 +235,9 @@ type regH struct {
 	obs    []*inst
 	ran    atomic.Int64
 	direct bool // the SDK's own registration was handed to the user (RegisterCallback after delegation)
+	// creation: a callback passed to an observable-instrument constructor (no Registration, cannot be
+	// unregistered); dup: passed on a repeated request of an existing identity (ignored, like the SDK does)
+	creation, dup bool
 	called atomic.Int64
 }
 
@@ -275,19 +301,46 @@ func (w *world) meter(k int) metric.Meter {
 	return w.meters[k]
 }
 
-func (w *world) opInst(id, k, kind int) *inst {
+// opInst requests an instrument.  same != nil: the identity (name, kind) of an earlier request on the
+// same meter is requested again.  cb: pass a creation-time callback (observable kinds); its id is the
+// request's id.
+func (w *world) opInst(id, k, kind int, same *inst, cb bool) *inst {
 	m := w.meter(k)
 	if m == nil {
 		return nil
 	}
-	x, err := newInst(m, id, kind, k)
-	if err != nil || x.h == nil {
+	name := fmt.Sprintf("i%d", id)
+	if same != nil {
+		name, kind = same.name, same.kind
+	}
+	var icb metric.Int64Callback
+	var fcb metric.Float64Callback
+	var h *regH
+	x := &inst{}
+	if cb && isObservable(kind) {
+		h = &regH{id: id, meter: k, creation: true, dup: same != nil, obs: []*inst{x}}
+		a := metric.WithAttributes(attribute.Int("cb", id))
+		icb = func(_ context.Context, o metric.Int64Observer) error { h.ran.Add(1); o.Observe(obsValue, a); return nil }
+		fcb = func(_ context.Context, o metric.Float64Observer) error { h.ran.Add(1); o.Observe(obsValue, a); return nil }
+		if !h.dup {
+			w.log.add(evRegCall, id, 0)
+		}
+	}
+	y, err := newInst(m, id, kind, k, name, icb, fcb)
+	if err != nil || y.h == nil {
 		w.note("instrument %d kind %d: %v", id, kind, err)
 		return nil
+	}
+	*x = *y
+	if h != nil && !h.dup {
+		w.log.add(evRegRet, id, 0)
 	}
 	w.log.add(evInstRet, id, 0)
 	w.mu.Lock()
 	w.insts[id] = x
+	if h != nil {
+		w.regs[id] = h
+	}
 	w.mu.Unlock()
 	return x
 }
@@ -338,7 +391,7 @@ func (w *world) opRegister(r, k int, obs []*inst) *regH {
 }
 
 func (w *world) opUnregister(h *regH) {
-	if h == nil {
+	if h == nil || h.creation {
 		return
 	}
 	if h.called.Add(1) > 1 && h.direct {
@@ -396,14 +449,42 @@ func (w *world) opInstallT() {
 	w.log.add(evTInstallRet, 0, 0)
 }
 
-// opProp installs a propagator and checks, through the handle obtained before,
-// that it is the one in effect (no model: observed directly).
+// opProp installs a propagator and checks, through the handle obtained before, that the
+// placeholder injects / extracts / lists exactly what the installed one does (no model:
+// observed directly).
 func (w *world) opProp() bool {
-	otel.SetTextMapPropagator(propagation.TraceContext{})
-	sc := trace.NewSpanContext(trace.SpanContextConfig{TraceID: trace.TraceID{1}, SpanID: trace.SpanID{2}, TraceFlags: 1})
+	installed := propagation.NewCompositeTextMapPropagator(propagation.TraceContext{}, propagation.Baggage{})
+	otel.SetTextMapPropagator(installed)
+	return propSame(w.prop0, installed)
+}
+
+func propSame(a, b propagation.TextMapPropagator) bool {
+	sc := trace.NewSpanContext(trace.SpanContextConfig{TraceID: trace.TraceID{1, 2}, SpanID: trace.SpanID{3}, TraceFlags: 1})
+	ctx := trace.ContextWithSpanContext(context.Background(), sc)
+	ca, cb := propagation.MapCarrier{}, propagation.MapCarrier{}
+	a.Inject(ctx, ca)
+	b.Inject(ctx, cb)
+	if len(ca) == 0 || fmt.Sprint(ca) != fmt.Sprint(cb) {
+		return false
+	}
+	ea := trace.SpanContextFromContext(a.Extract(context.Background(), cb))
+	eb := trace.SpanContextFromContext(b.Extract(context.Background(), cb))
+	if !ea.IsValid() || !ea.Equal(eb) {
+		return false
+	}
+	fa, fb := append([]string(nil), a.Fields()...), append([]string(nil), b.Fields()...)
+	sort.Strings(fa)
+	sort.Strings(fb)
+	return fmt.Sprint(fa) == fmt.Sprint(fb)
+}
+
+// propUse: one Inject / Extract / Fields through the placeholder obtained before installation.
+func (w *world) propUse() {
+	sc := trace.NewSpanContext(trace.SpanContextConfig{TraceID: trace.TraceID{9}, SpanID: trace.SpanID{9}, TraceFlags: 1})
 	c := propagation.MapCarrier{}
 	w.prop0.Inject(trace.ContextWithSpanContext(context.Background(), sc), c)
-	return c["traceparent"] != ""
+	_ = w.prop0.Extract(context.Background(), propagation.MapCarrier{"traceparent": "00-09000000000000000000000000000000-0900000000000000-01"})
+	_ = w.prop0.Fields()
 }
 
 // ---- final observation ----
@@ -486,6 +567,7 @@ func arrivals(rm *metricdata.ResourceMetrics) (byN map[string]map[int]int, byCB 
 
 func (w *world) finish(res *result) {
 	evs := w.log.sorted()
+	var sdkCreation [][3]int
 	byN := map[string]map[int]int{}
 	byCB := map[string]map[int]bool{}
 	if w.installed.Load() {
@@ -513,7 +595,13 @@ func (w *world) finish(res *result) {
 					found++
 				}
 			}
-			res.Live = append(res.Live, [4]int{r, int(h.ran.Load() - before[r]), found, len(h.obs)})
+			ran := int(h.ran.Load() - before[r])
+			res.Live = append(res.Live, [4]int{r, ran, found, len(h.obs)})
+			if h.creation {
+				for i := 0; i < ran; i++ {
+					sdkCreation = append(sdkCreation, [3]int{evSdkReg, r, 0})
+				}
+			}
 		}
 	}
 	spans := map[string]int{}
@@ -537,5 +625,8 @@ func (w *world) finish(res *result) {
 			}
 		}
 	}
+	// creation-time callbacks are registered inside the SDK's instrument constructor, out of sight of the
+	// recording wrapper: one SdkReg event per run in the final Collect
+	res.Events = append(res.Events, sdkCreation...)
 	res.Notes = append(res.Notes, w.notes...)
 }
